@@ -182,7 +182,20 @@ def run_unit(name, tier="quick", config="A", opts=None, keep=None):
         write(path, text)
         rlimit = u.get("rlimit", 30)
         logdir = os.path.join(d, "log")
-        cmd, rc, out, err, secs = run_verus(path, logdir, rlimit)
+        # which modules are verified here: "all" (default), "code" (everything but the spec/lemma module,
+        # whose proofs are discharged by the lemma unit over the same files) or "spec" (only that module)
+        scope = u.get("verify", "all")
+        extra = []
+        if scope == "code":
+            extra = ["--verify-root"]
+            for m in asm.modules:
+                if m != "crate":
+                    extra += ["--verify-module", m[len("crate::"):]]
+            extra += ["--verify-module", "vf_lemmas"]
+        elif scope == "spec":
+            extra = ["--verify-module", "vf_spec"]
+        res["verify_scope"] = scope
+        cmd, rc, out, err, secs = run_verus(path, logdir, rlimit, extra=extra)
         res["cmd"] = " ".join(cmd).replace(d, "<scratch>")
         res["obligations"] = count_obligations(logdir)
         tlines = text.split("\n")
@@ -262,7 +275,9 @@ def run_unit(name, tier="quick", config="A", opts=None, keep=None):
             undec.append("assume/admit present in the assembled unit: %s" % forbidden)
         res["functions_verified"] = ["%s (%s:%d)" % (p, f, l) for (_, _, p, f, l, m) in asm.fn_ranges if m == "verify"]
         res["functions_trusted"] = ["%s (%s:%d) [assumed contract]" % (p, f, l) for (_, _, p, f, l, m) in asm.fn_ranges
-                                    if m != "verify"]
+                                    if m == "trusted"]
+        res["functions_assumed_here"] = ["%s (%s:%d)" % (p, f, l) for (_, _, p, f, l, m) in asm.fn_ranges
+                                         if m == "assumed"]
         res["unlisted_functions"] = len(asm.unlisted)
         if failed:
             res["status"] = "fail"
@@ -270,7 +285,8 @@ def run_unit(name, tier="quick", config="A", opts=None, keep=None):
         elif undec:
             res["status"] = "undecided"
             res["undecided_reason"] = "; ".join(undec)[:2000]
-        elif vr.get("success") and vr.get("errors") == 0 and res["obligations"] > 0:
+        elif (vr.get("success") or (vr and not vr.get("encountered-error") and not vr.get("encountered-vir-error")
+                                     and vr.get("verified", 0) > 0)) and vr.get("errors") == 0 and res["obligations"] > 0:
             res["status"] = "pass"
             res["discharged"] = res["obligations"]
         else:
@@ -284,9 +300,10 @@ def run_unit(name, tier="quick", config="A", opts=None, keep=None):
         # vacuity twin
         if res["status"] == "pass" and opts.get("vacuity", True):
             vtext, probes = insert_vacuity_probes(text, asm.fn_ranges)
+        if res["status"] == "pass" and opts.get("vacuity", True) and probes:
             vpath = os.path.join(d, name + "_vacuity.rs")
             write(vpath, vtext)
-            vcmd, vrc, vout, verr, vsecs = run_verus(vpath, None, 5, multiple=0)
+            vcmd, vrc, vout, verr, vsecs = run_verus(vpath, None, 5, multiple=0, extra=extra)
             vd, _ = parse_diagnostics(verr)
             hit = set()
             for dg in vd:
@@ -320,4 +337,9 @@ if __name__ == "__main__":
     import sys
     r = run_unit(sys.argv[1], config=sys.argv[2] if len(sys.argv) > 2 else "A",
                  keep=os.environ.get("VERIF_KEEP"))
-    print(json.dumps(r, indent=1)[:6000])
+    brief = {k: r.get(k) for k in ("unit", "status", "obligations", "discharged", "seconds", "solver_seconds",
+                                   "undecided_reason", "vacuity")}
+    brief["n_verified"] = len(r["functions_verified"])
+    brief["n_assumed_here"] = len(r.get("functions_assumed_here", []))
+    brief["failed"] = [{k: f.get(k) for k in ("function", "kind", "location", "clause")} for f in r["failed"]]
+    print(json.dumps(brief, indent=1))
